@@ -491,7 +491,10 @@ impl World {
                 "addr": p.addr,
                 "a0": jinfo(&pi.asset_infos[0]), "a1": jinfo(&pi.asset_infos[1]),
                 "d0": pi.asset_decimals[0], "d1": pi.asset_decimals[1],
-                "lp": pi.liquidity_token,
+                // the LP token is the cw20 contract the factory recorded when the pair was created; what the pair
+                // itself reports is observed separately
+                "lp": p.lp,
+                "self_lp": pi.liquidity_token,
                 "commission": j256(&pi.commission_rate.0),
                 "wl": pi.requirements.whitelist.iter().map(|a| a.to_string()).collect::<Vec<String>>(),
                 "m0": j128(pi.requirements.first_asset_minimum.u128()),
@@ -556,6 +559,11 @@ impl World {
             "cw20_transfer" => wasm(
                 self.resolve(&s(&op["token"])),
                 to_binary(&Cw20ExecuteMsg::Transfer { recipient: self.resolve(&s(&op["dest"])), amount: amt(&op["amount"]) }).unwrap(),
+                vec![],
+            ),
+            "cw20_burn" => wasm(
+                self.resolve(&s(&op["token"])),
+                to_binary(&Cw20ExecuteMsg::Burn { amount: amt(&op["amount"]) }).unwrap(),
                 vec![],
             ),
             "cw20_increase_allowance" => wasm(
